@@ -215,6 +215,7 @@ def run_check(ctx):
     st = coq.proof_stage(ctx, 'Props.C13', VO, FILES)
     finish_proof(ctx, st)
     scale = 1 if ctx.tier == 'quick' else 40
+    if getattr(ctx, 'changed', None) and ctx.tier == 'quick': scale = 5
     broken = []
     if not st['regen_ok']: broken.append(('translator failed', {'stage': 'translate'}))
     elif not st['make_ok']: broken.append(('Coq proof obligation no longer checks: %s' % st['bad_file'], {'stage': 'proof', 'theorem_file': st['bad_file'], 'coq_log': st['make_log'][-3000:]}))
